@@ -329,6 +329,7 @@ func mutate(r *core.Rand, rule RuleSpec, m c16Method) RuleSpec {
 func genC16(r *core.Rand, run int) *MuxScenario {
 	sc := &MuxScenario{Prop: "C16", Knobs: Knobs{MaxRecv: 65536}, Local: []string{"-"}, Sequential: true, NoDefaultRules: true}
 	nrules := 1 + r.Intn(6)
+	neighbour := map[int]bool{} // rules that have, or are, a literal neighbour (case 10)
 	for i := 0; i < nrules; i++ {
 		m := c16Methods[r.Intn(len(c16Methods))]
 		rule := genRule(r, i+1, m)
@@ -397,8 +398,13 @@ func genC16(r *core.Rand, run int) *MuxScenario {
 			}
 		case 10: // beside an earlier rule's variable, the literal its probe instantiates the variable with - under another verb
 			if len(sc.Rules) > 0 {
-				prev := sc.Rules[r.Intn(len(sc.Rules))]
-				if prev.Invalid == "" && !prev.Long && !prev.Conflict && prev.Path != "" && len(prev.Additional) == 0 {
+				pi := r.Intn(len(sc.Rules))
+				prev := sc.Rules[pi]
+				// (one such neighbour per rule, and none for a neighbour: two of
+				// them under one verb would overlap on the very path both are
+				// probed with, and which one wins is precedence - C02's subject)
+				if prev.Invalid == "" && !prev.Long && !prev.Conflict && prev.Path != "" && len(prev.Additional) == 0 && !neighbour[pi] {
+					neighbour[pi], neighbour[len(sc.Rules)] = true, true
 					var names []string
 					for f, v := range prev.Want {
 						if strings.Contains(prev.Template, "/{"+f+"}") && !strings.Contains(v, "/") {
